@@ -254,6 +254,20 @@ def reqSpec : List String → Spec Request
       | .ok v => .val v r
       | _ => .specErr
     | none => .bad
+  | "WMRX" :: a :: h :: r =>
+    match parseU16 a, parseHex h with
+    | some a, some b => match Response.decode b with
+      | .ok (.readHoldingRegisters d) | .ok (.readInputRegisters d) | .ok (.readWriteMultipleRegisters d) =>
+        .val (.writeMultipleRegisters a d) r
+      | _ => .specErr
+    | _, _ => .bad
+  | "RWMX" :: ra :: rq :: wa :: h :: r =>
+    match parseU16 ra, parseU16 rq, parseU16 wa, parseHex h with
+    | some ra, some rq, some wa, some b => match Response.decode b with
+      | .ok (.readHoldingRegisters d) | .ok (.readInputRegisters d) | .ok (.readWriteMultipleRegisters d) =>
+        .val (.readWriteMultipleRegisters ra rq wa d) r
+      | _ => .specErr
+    | _, _, _, _ => .bad
   | _ => .bad
 
 def rspSpec : List String → Spec Response
